@@ -332,11 +332,16 @@ fn do_joins(h: Box<dyn H>, spec: &Value, m: &Marks) -> Value {
         let after = m.fin.load(Ordering::Acquire);
         let mut first = Value::Null;
         let mut r = r;
-        if before != 0 && j["api"] == "tj" && r == json!({"err": "timeout join failed"}) {
-            // produced its outcome and still a timeout: once more, half a second later, to tell a
-            // result that was published late (unwinding takes time) from one that is never handed out
+        let mut tries = 0;
+        while before != 0 && j["api"] == "tj" && r == json!({"err": "timeout join failed"}) && tries < 4 {
+            // produced its outcome and still a timeout: again, half a second later (up to 2 s), to
+            // tell a result that was published late (unwinding, a descheduled loop thread on a loaded
+            // machine) from one that is never handed out
             pause_ms(500);
-            first = r;
+            if tries == 0 {
+                first = r;
+            }
+            tries += 1;
             r = h.as_ref().map_or(json!("moved"), |h| h.tj(dur_of(j["dur"].as_str().expect("dur"))));
         }
         joins.push(json!({"r": r, "t_call": t_call.to_string(), "t_ret": t_ret.to_string(), "first": first,
@@ -444,6 +449,8 @@ fn run_any(case: &Value) -> Vec<Value> {
     }
     let before: Vec<String> = ms.iter().map(|m| m.fin.load(Ordering::Acquire).to_string()).collect();
     let t_call = now_ns();
+    // kept if the call never returns
+    emit("P", &json!({"pre": {"t_call": t_call.to_string(), "fin_before": before}}));
     let r = match case["api"].as_str().expect("api") {
         "any_timeout_join" => {
             let d = dur_of(case["dur"].as_str().expect("dur"));
